@@ -307,6 +307,264 @@ def check_function(program, fid, timeout_ms=60000, want=("c07", "c16")):
     return res
 
 
+
+# ------------------------------------------------------------------------------------------------
+# Basic-block encoding (same claim, ~10x smaller query): straight-line runs are summarised
+# symbolically — net height change, the minimal entry height they need, the locals they need and
+# produce — and the path variables live on block leaders only.  Heights and local counts are
+# 16-bit vectors (a function has < 2^15 instructions, so neither can wrap before an underflow is
+# flagged).  check_function_blocks and check_function must agree; the check cross-validates them
+# on a sample every run.
+
+W = 16
+
+
+def _blocks(instrs):
+    n = len(instrs)
+    leaders = {0}
+    for i in range(n):
+        op = instrs[i][0]
+        if op in ("Jump", "JumpIf", "TailCall"):
+            if i + 1 < n:
+                leaders.add(i + 1)
+            for t, _ in successors(instrs, i):
+                if 0 <= t < n:
+                    leaders.add(t)
+    leaders = sorted(leaders)
+    blocks = []
+    for k, start in enumerate(leaders):
+        end = leaders[k + 1] if k + 1 < len(leaders) else n
+        blocks.append((start, end))
+    return blocks
+
+
+def check_function_blocks(program, fid, timeout_ms=60000, want=("c07", "c16")):
+    import time
+    fn = program.functions[fid]
+    instrs = fn.instrs
+    n = len(instrs)
+    res = FnResult()
+    res.nodes = n + 1
+    effs = []
+    for i, ins in enumerate(instrs):
+        need, dh, le, bad = effect(program, ins)
+        effs.append((need, dh, le))
+        if bad:
+            res.static.append((i, bad))
+        if ins[0] == "TailCall":
+            res.tailcalls += 1
+    cyc = find_cycle(instrs)
+    if cyc is not None:
+        res.verdict = "cyclic"
+        res.cycle = cyc
+        return res
+    if n >= (1 << (W - 1)):
+        res.verdict = "unknown"
+        return res
+    blocks = _blocks(instrs) if n else []
+    bidx = {b[0]: k for k, b in enumerate(blocks)}
+    nb = len(blocks)
+    EXIT = nb   # pseudo block for pc == n
+
+    # reachability over blocks
+    succs = []
+    for (start, end) in blocks:
+        last = end - 1
+        out = []
+        for (t, kind) in successors(instrs, last):
+            out.append((t, kind))
+        succs.append(out)
+    reach = set()
+    work = [0] if nb else []
+    while work:
+        x = work.pop()
+        if x in reach:
+            continue
+        reach.add(x)
+        for (t, kind) in succs[x]:
+            if t == n:
+                reach.add(EXIT)
+            elif 0 <= t < n:
+                work.append(bidx[t])
+    if n == 0:
+        reach.add(EXIT)
+
+    s = z3.Solver()
+    s.set("timeout", timeout_ms)
+
+    def BV(v):
+        return z3.BitVecVal(v, W)
+
+    # block summaries: conditions are expressed over (h_in, l_in)
+    summaries = []
+    for (start, end) in blocks:
+        cum = 0                 # height change so far
+        lconst = None           # locals became a constant (after a Reset) + stores since
+        ladd = 0                # stores since entry (when lconst is None)
+        hreq = []               # (pc, kind, needed entry height)
+        lreq = []               # (pc, kind, k, strict) on l_in:  l_in + ladd  > k (strict) / >= k
+        static_bad = []         # (pc, kind) violated whenever the block is reached
+        tail = None
+        for i in range(start, end):
+            need, dh, le = effs[i]
+            op = instrs[i][0]
+            if op == "TailCall":
+                exact = 1 if instrs[i][1] else 2
+                tail = (i, exact, cum)
+            if need > 0:
+                hreq.append((i, "stack-underflow", need - cum))
+            if le is not None:
+                if le[0] == "load":
+                    if lconst is None:
+                        lreq.append((i, "load-undefined-local", le[1] - ladd, True))
+                    elif not (lconst > le[1]):
+                        static_bad.append((i, "load-undefined-local"))
+                elif le[0] == "set":
+                    if lconst is None:
+                        lreq.append((i, "reset-beyond-locals", le[1] - ladd, False))
+                    elif lconst < le[1]:
+                        static_bad.append((i, "reset-beyond-locals"))
+                    lconst = le[1]
+                elif le[0] == "add":
+                    if lconst is None:
+                        ladd += le[1]
+                    else:
+                        lconst += le[1]
+            cum += dh
+        summaries.append({"dh": cum, "lconst": lconst, "ladd": ladd, "hreq": hreq, "lreq": lreq,
+                          "static": static_bad, "tail": tail})
+
+    def copy(tag):
+        on = [z3.Bool("on%s_%d" % (tag, k)) for k in range(nb + 1)]
+        h = [z3.BitVec("h%s_%d" % (tag, k), W) for k in range(nb + 1)]
+        l = [z3.BitVec("l%s_%d" % (tag, k), W) for k in range(nb + 1)]
+        br = {}
+        oob = []
+        incoming = [[] for _ in range(nb + 1)]
+        if nb:
+            s.add(on[0])
+            s.add(h[0] == BV(1), l[0] == BV(fn.captures))
+        else:
+            s.add(on[EXIT], h[EXIT] == BV(1), l[EXIT] == BV(fn.captures))
+        for k, (start, end) in enumerate(blocks):
+            sm = summaries[k]
+            last = end - 1
+            is_cond = instrs[last][0] == "JumpIf"
+            if is_cond:
+                br[k] = z3.Bool("br%s_%d" % (tag, k))
+            hout = h[k] + BV(sm["dh"] & ((1 << W) - 1))
+            lout = BV(sm["lconst"]) if sm["lconst"] is not None else l[k] + BV(sm["ladd"])
+            for (t, kind) in succs[k]:
+                taken = z3.And(on[k], br[k] if kind == "jump" else z3.Not(br[k])) if is_cond else on[k]
+                if t < 0 or t > n:
+                    oob.append((last, taken, t))
+                    continue
+                tb = EXIT if t == n else bidx[t]
+                res.edges += 1
+                incoming[tb].append(taken)
+                s.add(z3.Implies(taken, z3.And(h[tb] == hout, l[tb] == lout)))
+        for j in range(1, nb + 1):
+            if nb == 0:
+                break
+            if j not in reach:
+                s.add(z3.Not(on[j]))
+            else:
+                s.add(on[j] == (z3.Or(*incoming[j]) if incoming[j] else z3.BoolVal(False)))
+        return on, h, l, br, oob
+
+    onA, hA, lA, brA, oobA = copy("A")
+    onB, hB, lB, brB, oobB = copy("B")
+
+    bads = []   # (term, kind, pc, block)
+    for k, (start, end) in enumerate(blocks):
+        sm = summaries[k]
+        for (pc, kind, req) in sm["hreq"]:
+            if req > 0:
+                bads.append((z3.And(onA[k], z3.ULT(hA[k], BV(req))), kind, pc, k))
+        for (pc, kind, kk, strict) in sm["lreq"]:
+            if strict:
+                if kk >= 0:
+                    bads.append((z3.And(onA[k], z3.ULE(lA[k], BV(kk))), kind, pc, k))
+            else:
+                if kk > 0:
+                    bads.append((z3.And(onA[k], z3.ULT(lA[k], BV(kk))), kind, pc, k))
+        for (pc, kind) in sm["static"]:
+            bads.append((onA[k], kind, pc, k))
+        if sm["tail"] is not None and "c16" in want:
+            pc, exact, cum = sm["tail"]
+            bads.append((z3.And(onA[k], hA[k] + BV(cum & ((1 << W) - 1)) != BV(exact)),
+                         "tailcall-leaves-stack-cells", pc, k))
+        bads.append((z3.And(onA[k], onB[k], hA[k] != hB[k]), "inconsistent-height-at-join", start, k))
+    bads.append((z3.And(onA[EXIT], hA[EXIT] != BV(1)), "exit-height-not-one", n, EXIT))
+    bads.append((z3.And(onA[EXIT], onB[EXIT], hA[EXIT] != hB[EXIT]), "inconsistent-height-at-join", n, EXIT))
+    for (i, taken, t) in oobA:
+        bads.append((taken, "jump-out-of-range(target %d)" % t, i, None))
+    flags = [z3.Bool("bad_%d" % k) for k in range(len(bads))]
+    for f, (term, _, _, _) in zip(flags, bads):
+        s.add(f == term)
+    s.add(z3.Or(*flags) if flags else z3.BoolVal(False))
+    res.assertions = len(s.assertions())
+    t0 = time.time()
+    r = s.check()
+    res.solver_s = time.time() - t0
+    if r == z3.unsat:
+        res.verdict = "unsat"
+        return res
+    if r == z3.unknown:
+        res.verdict = "unknown"
+        return res
+    res.verdict = "sat"
+    m = s.model()
+
+    def decisions_of(br, target_pc, stop_at_target):
+        """walk the model's path; returns (decisions, pcs)"""
+        decisions = []
+        pcs = []
+        if not nb:
+            return decisions, pcs
+        k = 0
+        guard = 0
+        while guard <= nb + 1:
+            guard += 1
+            start, end = blocks[k]
+            pcs.extend(range(start, end))
+            if stop_at_target and start <= target_pc < end:
+                break
+            last = end - 1
+            op = instrs[last][0]
+            if op == "JumpIf":
+                d = z3.is_true(m.eval(br[k], model_completion=True))
+                decisions.append(bool(d))
+                t = last + instrs[last][1] + 1 if d else last + 1
+            elif op == "Jump":
+                t = last + instrs[last][1] + 1
+            elif op == "TailCall":
+                break
+            else:
+                t = last + 1
+            if t < 0 or t >= n:
+                break
+            k = bidx[t]
+        return decisions, pcs
+
+    for f, (term, kind, pc, k) in zip(flags, bads):
+        if z3.is_true(m.eval(f, model_completion=True)):
+            stop = kind not in ("exit-height-not-one",)
+            dA, pA = decisions_of(brA, pc, stop and pc < n)
+            hk = k if k is not None else 0
+            v = {"kind": kind, "pc": pc, "decisions": dA, "pcs": pA[:200],
+                 "h": m.eval(hA[hk], model_completion=True).as_long(),
+                 "l": m.eval(lA[hk], model_completion=True).as_long()}
+            if kind == "inconsistent-height-at-join":
+                dB, pB = decisions_of(brB, pc, pc < n)
+                v["decisions_b"] = dB
+                v["pcs_b"] = pB[:200]
+                v["h_b"] = m.eval(hB[hk], model_completion=True).as_long()
+            res.violations.append(v)
+            break
+    return res
+
+
 def walk(program, fid, decisions, stop_pc=None):
     """Concrete walk along branch decisions with the same effect table (Python side); the Rust
     helper has an independent implementation used to confirm counterexamples."""
